@@ -560,7 +560,22 @@ def rule_m6(ctx, facts):
                              "created once per table in Table::from" if ok else "a BinEntry::Moved is created outside Table::from: it carries no next_table guarantee")
 
 
+def relabelled(ctx, facts, fn, src_rule, dst_rule, only_what=None):
+    """run a rule of another property under this one (shared clause), renaming its instances"""
+    before = len(ctx.instances)
+    fn(ctx, facts)
+    kept = []
+    for i in ctx.instances[before:]:
+        if i.rule == src_rule and (only_what is None or i.what.startswith(only_what)):
+            i.rule = dst_rule
+            kept.append(i)
+    ctx.instances[before:] = kept
+
+
 def run(ctx, facts):
+    ctx.rule("M7", "a tree bin replaced in its table slot is retired XOR stored into a table again (rule O6 of C04): both = freed while still linked", floor=5)
+    from .rules_c04 import rule_o6
+    relabelled(ctx, facts, rule_o6, "O6", "M7")
     ctx.rule("M6", "the shared forwarding marker is only handed out after next_table has been set (get_moved); Moved entries are created only in Table::from", floor=2)
     rule_m6(ctx, facts)
     ctx.rule("M1", "a Guard::unprotected() value never reaches (through args, refs, aggregates, captures) a retire that is followed by a touch "
